@@ -22,6 +22,9 @@ Chars == {<<233>>, <<1103>>, <<8364>>, <<20013>>, <<128512>>, <<233, 66>>}    \*
 EscapeRows == {[kind |-> "escape", target |-> t, cps |-> c, pos |-> p] :
                   t \in {"ascii", "iso-8859-1", "koi8-r", "cp1252", "utf-8", "utf-16"}, c \in Chars,
                   p \in {"class", "string", "url", "comment", "value-ident"}}
+              \* a lone surrogate (written in the source as the escape \d800) cannot be encoded by any target, UTF ones included
+              \cup {[kind |-> "escape", target |-> t, cps |-> <<55296>>, pos |-> p] :
+                  t \in {"ascii", "iso-8859-1", "utf-8", "utf-16", "utf-32"}, p \in {"class", "string", "url", "value-ident"}}
 \* histories: parse, then change the encoding of the root or of the imported sheet, then add a new @import to it
 EditRows == {[kind |-> "edit", root |-> r, chain |-> <<n>>, target |-> t, newenc |-> e, newnode |-> m, how |-> h] :
                 r \in {x \in Roots : x.override = "none"}, n \in {x \in SmallNodes : x.fetch = "data"}, t \in {"root", "child"},
